@@ -130,6 +130,12 @@ def check(ctx):
             pass
         elif role[0] == 'arg' and role[1] == 'len':
             pass
+        elif role[0] == 'subscript-del':
+            sub = s.mod.parents.get(s.node)
+            if dv.is_head_index(sub.slice):
+                o.witness('pop0')
+            else:
+                bad = 'a stored part is removed from a position other than the head'
         else:
             bad = f'unrecognised use of the storage list ({role[0]})'
         if bad:
@@ -358,8 +364,13 @@ def level_pairing(ctx, c, o):
             return sign, an.ev(a.value, before, n.frame)
         if isinstance(a, ast.Assign) and any(is_self_attr(t, '_level') for t in a.targets) and n.frame.func.name != '__init__':
             v = a.value
-            if isinstance(v, ast.BinOp) and is_self_attr(v.left, '_level') and isinstance(v.op, (ast.Add, ast.Sub)):
-                return ('+' if isinstance(v.op, ast.Add) else '-'), an.ev(v.right, before, n.frame)
+            if isinstance(v, ast.BinOp) and isinstance(v.op, (ast.Add, ast.Sub)):
+                lv = an.canon_loc(v.left, n.frame)
+                rv = an.canon_loc(v.right, n.frame)
+                if is_self_attr(lv, '_level') or (isinstance(lv, ast.Call) and ast.unparse(lv) == 'self.level()'):
+                    return ('+' if isinstance(v.op, ast.Add) else '-'), an.ev(v.right, before, n.frame)
+                if isinstance(v.op, ast.Add) and (is_self_attr(rv, '_level') or ast.unparse(rv) == 'self.level()'):
+                    return '+', an.ev(v.left, before, n.frame)
             return '?', ast.unparse(v)
         return None
 
@@ -375,13 +386,13 @@ def level_pairing(ctx, c, o):
             if is_self_attr(getattr(cl.func, 'value', None), '_buffer'):
                 if call_attr(cl) == 'append':
                     st = st.with_flag('stored2' if 'stored' in st.flags else 'stored')
-                elif call_attr(cl) == 'pop':
-                    hid = st.fields['#hid']
-                    if not it.startswith('H:e' + hid) or 'P' in it.split(':')[-1]:
-                        st = st.with_flag('BAD:the head is removed without having been accepted downstream')
-                    else:
-                        it = it + 'P'
-                    st = st.with_field('#hid', '1' if hid == '0' else '0')
+        for _ in dv.list_removals(n, '_buffer'):      # pop(0) / del [0] / popleft (the position is checked by C05.3)
+            hid = st.fields['#hid']
+            if not it.startswith('H:e' + hid) or 'P' in it.split(':')[-1]:
+                st = st.with_flag('BAD:the head is removed without having been accepted downstream')
+            else:
+                it = it + 'P'
+            st = st.with_field('#hid', '1' if hid == '0' else '0')
         d = level_delta(an, n, before)
         if d is not None:
             sign, amount = d
